@@ -317,8 +317,78 @@ func shortLegacy(ts string) string {
 	return strings.TrimPrefix(ts[:i], "*") + "1_22/" + ts[i+len("/proto/1_22/"):]
 }
 
+// checkRepairedBlobWrittenBack: in visitDataBlobs, whenever translateOneDataBlob / translateDataBlobs report
+// changed (a repair happened) without an error, the new blob is assigned back to the visited field: with the
+// error exits and the changed == false edges pruned, no path from the call reaches a return without visit.Assign.
+func checkRepairedBlobWrittenBack(c *Ctx, res *report.Result, rule string) {
+	f := resolve(c, res, rule, anchor{"interceptor", "", "visitDataBlobs"})
+	if f == nil {
+		return
+	}
+	n := 0
+	for _, call := range flow.Calls(f) {
+		cv, isC := call.(*ssa.Call)
+		if !isC {
+			continue
+		}
+		cal := flow.StaticCallee(&cv.Call)
+		if cal == nil || (cal.Name() != "translateOneDataBlob" && cal.Name() != "translateDataBlobs") {
+			continue
+		}
+		n++
+		var changed, errv ssa.Value
+		for _, r := range *cv.Referrers() {
+			if ex, isEx := r.(*ssa.Extract); isEx {
+				switch ex.Index {
+				case 2:
+					changed = ex
+				case 3:
+					errv = ex
+				}
+			}
+		}
+		construct := "visitDataBlobs: a blob repaired by " + cal.Name() + " replaces the original"
+		if changed == nil {
+			res.Viol(rule, construct, instrPos(c.Prog, cv), "the 'changed' result (a repair happened) is ignored: a repaired blob that contains nothing to translate is dropped and the original undecodable blob is passed on without an error")
+			continue
+		}
+		isAssign := func(x ssa.Instruction) bool {
+			ci, ok := x.(ssa.CallInstruction)
+			return ok && flow.IsCallTo(ci.Common(), "github.com/keilerkonzept/visit", "", "Assign")
+		}
+		edgeOK := func(a, b *ssa.BasicBlock) bool {
+			iff := lastIfOf(a)
+			if iff == nil || len(a.Succs) != 2 {
+				return true
+			}
+			side := b == a.Succs[0]
+			for _, src := range condSources(iff.Cond, 0) {
+				if src == changed && !side {
+					return false // contradicts changed == true
+				}
+			}
+			if bo, isB := iff.Cond.(*ssa.BinOp); isB && (bo.X == errv || bo.Y == errv) {
+				isNil := side
+				if bo.Op == token.NEQ {
+					isNil = !side
+				}
+				if !isNil {
+					return false // error exit
+				}
+			}
+			return true
+		}
+		r := flow.FindPath(flow.After(cv), flow.IsReturn, isAssign, edgeOK)
+		res.Check(!r.Found, rule, construct, instrPos(c.Prog, cv), "every non-error path with changed == true passes visit.Assign", "a repaired blob can be dropped (path "+flow.BlockPath(r.Via)+" returns without visit.Assign although changed may be true): the original undecodable blob is passed on without an error")
+	}
+	if n < 2 {
+		res.Undec(rule, "visitDataBlobs: blob translation calls", fnPos(c.Prog, f), fmt.Sprintf("%d found, 2 confirmed by hand", n))
+	}
+}
+
 func checkBlobRepairPath(c *Ctx, res *report.Result) {
 	rule := "O17.4"
+	checkRepairedBlobWrittenBack(c, res, rule)
 	f := resolve(c, res, rule, anchor{"interceptor", "", "translateOneDataBlob"})
 	if f == nil {
 		return
